@@ -62,6 +62,9 @@ func globItemsRemote(srcURL, itemRelDirPattern string) ([]string, error) {
 	if err != nil {
 		return nil, err
 	}
+	if err := remoteStatusError(resp, data); err != nil {
+		return nil, err
+	}
 
 	if len(data) == 0 {
 		return nil, convertRemoteErrNotExist(resp)
@@ -123,6 +126,9 @@ func globFilesRemote(srcURL, relPathPattern string) ([]string, error) {
 	if err != nil {
 		return nil, err
 	}
+	if err := remoteStatusError(resp, data); err != nil {
+		return nil, err
+	}
 
 	if len(data) == 0 {
 		return nil, convertRemoteErrNotExist(resp)
@@ -148,4 +154,14 @@ func hasMeta(path string) bool {
 		magicChars = `*?[\`
 	}
 	return strings.ContainsAny(path, magicChars)
+}
+
+// remoteStatusError returns an error if the response from the server
+// is not a success. The body of such a response is an error message,
+// not data.
+func remoteStatusError(resp *http.Response, body []byte) error {
+	if resp.StatusCode == http.StatusOK {
+		return nil
+	}
+	return fmt.Errorf("remote server error: %s: %s", resp.Status, strings.TrimSpace(string(body)))
 }
